@@ -237,6 +237,7 @@ type c05Sim struct {
 	// per-run deterministic expectations
 	mustWhole []bool // row must be kept with factor 1 in every run
 	whyWhole  []string
+	behindBreak []bool // SampleBudgets: the row's top-level group is sorted at or behind a group that does not fit
 	violated  map[string]bool
 }
 
@@ -294,7 +295,7 @@ func (s *c05Sim) runs(n int, judgeRuns bool) {
 				}
 				if row.kept && row.sf < 1 {
 					cls := "other"
-					if strings.HasSuffix(s.whyWhole[i], "fixed-budget-break") {
+					if s.behindBreak[i] {
 						cls = "fixed-budget-break"
 					}
 					s.once("C05/kept-with-factor-below-one/"+cls, fmt.Sprintf("row %d kept with factor %v < 1", i, row.sf), map[string]any{"row": i, "run": t})
@@ -368,6 +369,7 @@ func TestVerifC05(t *testing.T) {
 			// deterministic expectations, sound whatever the random choices are
 			s.mustWhole = make([]bool, len(c.Rows))
 			s.whyWhole = make([]string, len(c.Rows))
+			s.behindBreak = make([]bool, len(c.Rows))
 			fixedSize := map[int32]int64{}
 			topSize, topW := map[int64]int64{}, map[int64]int64{}
 			var W int64
@@ -428,6 +430,13 @@ func TestVerifC05(t *testing.T) {
 						sp = &c.Metrics[mi]
 					}
 				}
+				if c.Opt.Budgets {
+					if row.fixed > 0 {
+						s.behindBreak[i] = behindMiss(fixedSize[row.Metric], 1)
+					} else {
+						s.behindBreak[i] = behindMiss(topSize[row.topKey], topW[row.topKey])
+					}
+				}
 				switch {
 				case c.Opt.Budgets && row.fixed > 0:
 					if fixedSize[row.Metric] <= sp.Fixed {
@@ -453,6 +462,8 @@ func TestVerifC05(t *testing.T) {
 			s.runs(N, true)
 			flagged := s.outliers(N, c05Delta1)
 			w.Count("stat.row_tests", int64(len(c.Rows)))
+			w.Count("runs.sampler_runs(first pass)", int64(N))
+			w.Count("runs.row_observations(callbacks checked)", int64(N)*int64(len(c.Rows)))
 			varied, unconditional := 0, 0
 			for i, row := range c.Rows {
 				nontrivial := row.keptN > 0 && row.keptN < N
